@@ -123,6 +123,12 @@ def truthy(cond):
         return out
     if k in ('ImplicitCastExpr', 'CXXStaticCastExpr') and children(n):
         return truthy(children(n)[0])
+    if k == 'CallExpr' and len(children(n)) == 2 and \
+            (strip(children(n)[0]).get('referencedDecl') or {}).get('name') == 'isfinite':
+        pp = canon(children(n)[1])
+        if pp:
+            out.add('ORD:' + pp)
+        return out
     p = canon(n)
     if p and _is_optional(n):
         out.add('E:' + p)
@@ -161,6 +167,17 @@ def falsy(cond):
                 out.add(('B', '0', '<', p + '.size()'))
                 out.add('NZ:' + p + '.size()')
         return out
+    if k in ('ImplicitCastExpr', 'CXXStaticCastExpr') and children(n):
+        return falsy(children(n)[0])
+    if k == 'CallExpr' and len(children(n)) == 2 and \
+            (strip(children(n)[0]).get('referencedDecl') or {}).get('name') == 'isnan':
+        pp = canon(children(n)[1])
+        if pp:
+            out.add('ORD:' + pp)
+        return out
+    p = canon(n)
+    if p and not _is_optional(n):
+        out.add('Z:' + p)
     return out
 
 
@@ -356,6 +373,11 @@ class Walker:
                     init = [x for x in children(d) if not x['kind'].endswith('Attr') and not x['kind'].endswith('Comment')]
                     if init:
                         cur = self.expr(init[-1], cur)
+                        if (d.get('dtype') or d.get('type') or '').replace('const ', '').strip() == 'bool':
+                            # a named condition: testing the flag later establishes what the condition does,
+                            # as long as nothing it mentions is assigned in between (_invalidate drops the fact)
+                            cur = cur | {('FLAG', '#%s:%s' % (d.get('id'), d.get('name')),
+                                          frozenset(self._t(init[-1], cur)), frozenset(self._f(init[-1], cur)))}
                         if _is_optional(d) and _rhs_engaged(init[-1]) and not \
                                 (strip(init[-1]).get('kind') == 'CXXConstructExpr' and not children(strip(init[-1]))):
                             cur = cur | {'E:#%s:%s' % (d.get('id'), d.get('name'))}
@@ -374,8 +396,8 @@ class Walker:
                 else:
                     cond = p
                     cur = self.expr(p, cur)
-            t_f = cur | (truthy(cond) if cond is not None else set())
-            e_f = cur | (falsy(cond) if cond is not None else set())
+            t_f = cur | (self._t(cond, cur) if cond is not None else set())
+            e_f = cur | (self._f(cond, cur) if cond is not None else set())
             a = self.stmt(body[0], t_f)
             b = self.stmt(body[1], e_f) if has_else else e_f
             if a is None and b is None:
@@ -390,17 +412,17 @@ class Walker:
             cond, body = c[-2], c[-1]
             inv = self._loop_invalidate(n, facts)
             cur = self.expr(cond, inv)
-            self.stmt(body, cur | truthy(cond))
-            return inv | falsy(cond) if not self._has_break(body) else inv
+            self.stmt(body, cur | self._t(cond, cur))
+            return inv | self._f(cond, inv) if not self._has_break(body) else inv
         if k == 'DoStmt':
             c = children(n)
             body, cond = c[0], c[1]
             inv = self._loop_invalidate(n, facts)
             # first iteration runs with the facts before the loop (minus what the body itself invalidates later)
             out = self.stmt(body, facts if True else inv)
-            self.stmt(body, inv | truthy(cond))
+            self.stmt(body, inv | self._t(cond, inv))
             self.expr(cond, inv)
-            return inv | falsy(cond) if not self._has_break(body) else inv
+            return inv | self._f(cond, inv) if not self._has_break(body) else inv
         if k == 'ForStmt':
             c = children(n)
             cur = facts
@@ -415,13 +437,13 @@ class Walker:
             inv = self._loop_invalidate(n, cur)
             exprs = [p for p in parts if p.get('kind')]
             cond = exprs[0] if exprs else None
-            bf = inv | (truthy(cond) if cond is not None else set())
+            bf = inv | (self._t(cond, inv) if cond is not None else set())
             if cond is not None:
                 self.expr(cond, inv)
             self.stmt(body, bf)
             for p in exprs[1:]:
                 self.expr(p, bf)
-            return inv | (falsy(cond) if cond is not None and not self._has_break(body) else set())
+            return inv | (self._f(cond, inv) if cond is not None and not self._has_break(body) else set())
         if k == 'CXXForRangeStmt':
             c = children(n)
             cur = facts
@@ -478,6 +500,22 @@ class Walker:
             return None
         return self.expr(n, facts)
 
+    def _expand(self, new, cur):
+        out = set(new)
+        for f in cur:
+            if isinstance(f, tuple) and f[0] == 'FLAG':
+                if ('NZ:' + f[1]) in new:
+                    out |= f[2]
+                if ('Z:' + f[1]) in new:
+                    out |= f[3]
+        return out
+
+    def _t(self, cond, cur):
+        return self._expand(truthy(cond), cur)
+
+    def _f(self, cond, cur):
+        return self._expand(falsy(cond), cur)
+
     def _has_break(self, body):
         for x in walk(body):
             if x.get('kind') == 'BreakStmt':
@@ -510,13 +548,13 @@ class Walker:
         if k == 'ConditionalOperator':
             c = children(n)
             cur = self.expr(c[0], facts)
-            self.expr(c[1], cur | truthy(c[0]))
-            self.expr(c[2], cur | falsy(c[0]))
+            self.expr(c[1], cur | self._t(c[0], cur))
+            self.expr(c[2], cur | self._f(c[0], cur))
             return cur
         if k == 'BinaryOperator' and n.get('opcode') in ('&&', '||'):
             c = children(n)
             cur = self.expr(c[0], facts)
-            self.expr(c[1], cur | (truthy(c[0]) if n['opcode'] == '&&' else falsy(c[0])))
+            self.expr(c[1], cur | (self._t(c[0], cur) if n['opcode'] == '&&' else self._f(c[0], cur)))
             return cur
         cur = facts
         for c in children(n):
